@@ -37,6 +37,7 @@ type scheduler struct {
 	mus        map[*value]*smutex
 	wgs        map[*value]*swg
 	onces      map[*value]*sonce
+	freeYield  bool // the current scheduling point is a voluntary yield: switching costs no preemption
 	smaps      map[*value]*omap   // sync.Map contents
 	pools      map[*value][]value // sync.Pool contents (LIFO, as seen by one P)
 	running    int // visitor-style counters available to harnesses
@@ -108,7 +109,7 @@ func (s *scheduler) yield(pred func() bool) {
 		if curOK {
 			cands = append(cands, cur)
 		}
-		if !curOK || s.preempt < s.maxPreempt {
+		if !curOK || s.preempt < s.maxPreempt || s.freeYield {
 			for _, t := range s.threads {
 				if t != cur && s.enabled(t) {
 					cands = append(cands, t)
@@ -125,7 +126,7 @@ func (s *scheduler) yield(pred func() bool) {
 			cur.waiting = nil
 			return
 		}
-		if curOK {
+		if curOK && !s.freeYield {
 			s.preempt++
 		}
 		next.wake <- true
